@@ -29,6 +29,23 @@ OPAQUE_MODULES = ('ampycloud.utils.mocker', 'ampycloud.__main__', 'ampycloud.log
 PUBLIC_CLASSES = ('ampycloud.data.CeiloChunk', 'ampycloud.data.AbstractChunk', 'ampycloud.plots.diagnostics.DiagnosticPlot')
 
 
+_PUB: dict = {}
+
+
+def _public_class(project, cls) -> bool:
+    """Is cls one of the public classes, or a base / mixin one of them inherits from?  (Every method of any other class
+    - a private helper class used by composition - is a helper, its constructor included.)"""
+    key = (id(project), cls.qname)
+    if key not in _PUB:
+        out = cls.qname in PUBLIC_CLASSES
+        for pq in PUBLIC_CLASSES:
+            k = project.classes.get(pq)
+            if k is not None and any(b.qname == cls.qname for b in project.mro(k)):
+                out = True
+        _PUB[key] = out
+    return _PUB[key]
+
+
 def is_helper(project, q: str) -> bool:
     """A package function the analyses look through (not a documented anchor, not a public stage method)."""
     f = project.funcs.get(q)
@@ -37,8 +54,9 @@ def is_helper(project, q: str) -> bool:
     mod = f.module.name
     if any(mod == m or (m.endswith('.') and mod.startswith(m)) for m in OPAQUE_MODULES):
         return False
-    if f.cls is not None:
-        # methods: only private ones (public methods of the chunk classes are stage entry points)
+    if f.cls is not None and _public_class(project, f.cls):
+        # methods of the chunk / plot classes (or of a mixin they inherit from): only private ones are helpers (the public
+        # ones are stage entry points)
         if not (f.name.startswith('_') and not f.name.startswith('__')):
             return False
     if any(d.endswith('contextmanager') for d in f.decorators):
